@@ -394,6 +394,9 @@ fn strip_aggs(e: &E) -> E {
     match e {
         E::Agg(_, inner, _) => strip_aggs(inner),
         E::CountStar => E::Int(1),
+        // see rescope(): JSON operators and MATCH are not executable deterministically
+        E::Bin(l, Op::SqGetJson | Op::SqCastJson, r) => E::Bin(Box::new(strip_aggs(l)), Op::Sub, Box::new(strip_aggs(r))),
+        E::Bin(l, Op::SqMatch, r) => E::Bin(Box::new(strip_aggs(l)), Op::SqGlob, Box::new(strip_aggs(r))),
         other => other.map_children(&mut |_, c| strip_aggs(c)),
     }
 }
@@ -423,6 +426,9 @@ fn rescope(e: &E, scope: &[u8]) -> E {
         E::AliasRef(_) | E::Star => E::Int(2),
         // MATCH needs an application-defined function: not executable
         E::Bin(l, Op::SqMatch, r) => E::Bin(Box::new(rescope(l, scope)), Op::SqGlob, Box::new(rescope(r, scope))),
+        // `->` / `->>` raise "malformed JSON" at run time on non-JSON operands; whether a row reaches them depends on
+        // the engine's short-circuiting of constant conditions, which differs between literal and bound operands
+        E::Bin(l, Op::SqGetJson | Op::SqCastJson, r) => E::Bin(Box::new(rescope(l, scope)), Op::Sub, Box::new(rescope(r, scope))),
         other => other.map_children(&mut |_, c| rescope(c, scope)),
     }
 }
